@@ -520,8 +520,11 @@ class PtychographyDatasetBase(AutoSerialize, OptimizerMixin, torch.nn.Module):
         r0 = torch.round(self.scan_positions_px[:, 0]).type(torch.int32)
         c0 = torch.round(self.scan_positions_px[:, 1]).type(torch.int32)
 
-        x_ind = torch.fft.fftfreq(self.roi_shape[0], d=1 / self.roi_shape[0]).to(self.device)
-        y_ind = torch.fft.fftfreq(self.roi_shape[1], d=1 / self.roi_shape[1]).to(self.device)
+        # integer offsets in fftfreq order; kept as int64 so that the flat index row * W + col below is
+        # integer arithmetic (float32 offsets made it float32, which is wrong once H * W exceeds 2**24)
+        x_ind = torch.fft.fftfreq(self.roi_shape[0], d=1 / self.roi_shape[0]).round().to(torch.int64)
+        y_ind = torch.fft.fftfreq(self.roi_shape[1], d=1 / self.roi_shape[1]).round().to(torch.int64)
+        x_ind, y_ind = x_ind.to(self.device), y_ind.to(self.device)
 
         # Process positions in chunks to reduce memory usage
         chunk_size = min(1000, len(r0))
